@@ -24,7 +24,8 @@ def one(mid, tier, props=None):
 def main():
     ap = argparse.ArgumentParser(); ap.add_argument("--only", default=""); ap.add_argument("--tier", default="quick"); ap.add_argument("--jobs", type=int, default=3)
     a = ap.parse_args()
-    ids = sorted(d for d in os.listdir(f"{V}/seeded") if os.path.isfile(f"{V}/seeded/{d}/meta.json") and a.only in d)
+    ids = sorted(d for d in os.listdir(f"{V}/seeded") if os.path.isfile(f"{V}/seeded/{d}/meta.json") and a.only in d
+                 and not json.load(open(f"{V}/seeded/{d}/meta.json")).get("neutralised_by_fix"))      # changes a later repair made harmless are not counted
     res = []
     with cf.ThreadPoolExecutor(a.jobs) as ex:
         for r in ex.map(lambda m: one(m, a.tier), ids):
